@@ -61,7 +61,13 @@ def gen_scenario(rng, fam):
         # code tasks: the k-th call the task makes gets the k-th scripted
         # command (the documented code makes two: clone + checkout, configure
         # + build, whatever the number of targets)
-        ncmd = 1 if via in ('cli', 'factory') else \
+        parent = None
+        if via == 'factory' and not real and rng.random() < 0.5:
+            cands = [j for j, t in enumerate(tasks)
+                     if t['via'] in ('cli', 'clis') and name_valid(t['name'])]
+            if cands:
+                via, parent = 'fromtask', rng.choice(cands)
+        ncmd = 1 if via in ('cli', 'factory', 'fromtask') else \
             rng.choice((2, 3, 5)) if via in CODE_KINDS \
             else rng.randrange(1, 5)
         cmds = []
@@ -85,15 +91,21 @@ def gen_scenario(rng, fam):
                     cmd['start'] = 'ENOENT'
             cmds.append(cmd)
         hard = [j for j in range(i) if rng.random() < 0.25]
+        if parent is not None and parent not in hard:
+            hard.append(parent)     # what from_task() injects
+            hard.sort()
         soft = [j for j in range(i) if j not in hard and rng.random() < 0.15]
         tasks.append({'name': name, 'via': via, 'cmds': cmds, 'hard': hard,
                       'soft': soft, 'stale': rng.random() < 0.3,
+                      'parent': parent,
                       'targets': rng.choice((None, 1, 2, 3))})
     if fam.get('startup'):
         # the first run of a job: nothing exists yet and the workers start
         # their first tasks at the same moment
         for tsk in tasks[:rng.choice((2, 3))]:
             tsk['hard'], tsk['soft'] = [], []
+            if tsk.get('parent') is not None:
+                tsk['hard'] = [tsk['parent']]
         return {'kind': 'runjob', 'tasks': tasks,
                 'workers': rng.choice((2, 3, 4)),
                 'tick': rng.choice(sched.TICKS), 'linemode': True,
@@ -108,6 +120,8 @@ def gen_scenario(rng, fam):
 
 
 def full_name(tsk):
+    if tsk['via'] == 'fromtask':
+        return tsk['name'] + '.ft'
     return tsk['name'] + ('.fac' if tsk['via'] == 'factory' else '')
 
 
@@ -229,7 +243,7 @@ def run_scenario(scn, chooser, max_steps=200000):
     markers = {}
     for i, tsk in enumerate(scn['tasks']):
         for k in range(len(tsk['cmds'])):
-            if tsk['via'] in CODE_KINDS:
+            if tsk['via'] in CODE_KINDS or tsk['via'] == 'fromtask':
                 markers[MARKER % i] = i
             else:
                 table[tuple(cli_of(scn, i, k))] = (i, k)
@@ -300,7 +314,7 @@ def run_scenario(scn, chooser, max_steps=200000):
             deps = [objs[j] for j in tsk['hard']]
             soft = [objs[j] for j in tsk['soft']]
             clis = [cli_of(scn, i, k) for k in range(len(tsk['cmds']))] \
-                if tsk['via'] not in CODE_KINDS else None
+                if tsk['via'] not in CODE_KINDS + ('fromtask',) else None
             if tsk['via'] == 'checkout':
                 obj = mods['code'].CheckoutTask(
                     tsk['name'], repository='repo-%d' % i,
@@ -316,6 +330,18 @@ def run_scenario(scn, chooser, max_steps=200000):
                     targets=['tgt%d' % n for n in range(tsk['targets'])]
                     if tsk.get('targets') else None,
                     deps=deps, soft_deps=soft)
+            elif tsk['via'] == 'fromtask':
+                # a factory made from another task injects a dependency on it
+                # and takes its executable from that task's output directory
+                par = tsk['parent']
+                fac2 = run_mod.RunTaskFactory.from_task(
+                    objs[par], relative_path='bin/tool', name='ft',
+                    default_args=[MARKER % i])
+                obj = fac2.make(name=tsk['name'],
+                                extra_args=list(tsk['cmds'][0]['args']),
+                                deps=[objs[j] for j in tsk['hard']
+                                      if j != par],
+                                soft_deps=soft)
             elif tsk['via'] == 'cli':
                 obj = run_mod.RunTask.from_cli(tsk['name'], clis[0],
                                                deps=deps, soft_deps=soft)
@@ -333,11 +359,16 @@ def run_scenario(scn, chooser, max_steps=200000):
         for obj in objs:
             hard.add_node(obj)
             softg.add_node(obj)
-        for i, tsk in enumerate(scn['tasks']):
-            for j in tsk['hard']:
-                hard.add_dependency(objs[i], on=objs[j])
-            for j in tsk['soft']:
-                softg.add_dependency(objs[i], on=objs[j])
+        # the edges are those the task objects carry (what the run command
+        # would see), not the scenario's: a task made with fewer dependencies
+        # than asked for is scheduled with fewer
+        where = {id(obj): i for i, obj in enumerate(objs)}
+        for obj in objs:
+            for dep in sorted(obj.depends_on, key=lambda t: where[id(t)]):
+                hard.add_dependency(obj, on=dep)
+            for dep in sorted(obj.soft_depends_on,
+                              key=lambda t: where[id(t)]):
+                softg.add_dependency(obj, on=dep)
         env = mods['env'].Env()
         holder['env'] = env
         holder['names'] = [o.name for o in objs]
@@ -611,6 +642,12 @@ def shrink(scn):
                 for key in ('hard', 'soft'):
                     tsk[key] = [j - 1 if j > k else j for j in tsk[key]
                                 if j != k]
+                par = tsk.get('parent')
+                if par is not None:
+                    if par == k:
+                        tsk['parent'], tsk['via'] = None, 'cli'
+                    elif par > k:
+                        tsk['parent'] = par - 1
             yield new
     if scn['workers'] > 1:
         new = copy.deepcopy(scn)
@@ -628,6 +665,8 @@ def shrink(scn):
                 yield new
         for key in ('hard', 'soft'):
             for j in tsk[key]:
+                if key == 'hard' and j == tsk.get('parent'):
+                    continue
                 new = copy.deepcopy(scn)
                 new['tasks'][i][key].remove(j)
                 yield new
